@@ -1348,6 +1348,101 @@ func Fanout(w *load.World, c *core.Collector) {
 				}
 			}
 		}
+		// the dual form: a counter of the shards that did NOT answer, compared with zero; it must be
+		// raised on every way a failed call takes through the goroutine
+		if !okFlag {
+			countBad = "" // what was said about the counter above was said about a success counter
+			for _, b := range f.Blocks {
+				for _, in := range b.Instrs {
+					call, ok := in.(*ssa.Call)
+					if !ok || call.Call.StaticCallee() == nil || call.Call.StaticCallee().Name() != "curateFailedPoints" {
+						continue
+					}
+					bo, ok := call.Call.Args[2].(*ssa.BinOp)
+					if !ok || bo.Op != token.EQL {
+						continue
+					}
+					var cell *ssa.Alloc
+					for _, pr := range [][2]ssa.Value{{bo.X, bo.Y}, {bo.Y, bo.X}} {
+						k, isK := pr[1].(*ssa.Const)
+						ld, isLd := pr[0].(*ssa.UnOp)
+						if isK && k.Value != nil && k.Int64() == 0 && isLd && ld.Op == token.MUL {
+							cell, _ = ld.X.(*ssa.Alloc)
+						}
+					}
+					if cell == nil {
+						continue
+					}
+					nLit := 0
+					missed := ""
+					for _, lit := range f.AnonFuncs {
+						var fv *ssa.FreeVar
+						for _, pb := range f.Blocks {
+							for _, pi := range pb.Instrs {
+								if mc, ok := pi.(*ssa.MakeClosure); ok && mc.Fn == ssa.Value(lit) {
+									for i, bnd := range mc.Bindings {
+										if bnd == ssa.Value(cell) && i < len(lit.FreeVars) {
+											fv = lit.FreeVars[i]
+										}
+									}
+								}
+							}
+						}
+						if fv == nil {
+							continue
+						}
+						incs := map[*ssa.BasicBlock]bool{}
+						for _, r := range *fv.Referrers() {
+							if st, ok := r.(*ssa.Store); ok && st.Addr == ssa.Value(fv) {
+								if add, ok := st.Val.(*ssa.BinOp); ok && add.Op == token.ADD {
+									incs[st.Block()] = true
+								}
+							}
+						}
+						for _, lb := range lit.Blocks {
+							for _, li := range lb.Instrs {
+								lc, ok := li.(*ssa.Call)
+								if !ok || lc.Call.StaticCallee() == nil || !strings.HasPrefix(lc.Call.StaticCallee().Name(), "RPC") {
+									continue
+								}
+								ev := errResultValue(lc)
+								if ev == nil {
+									continue
+								}
+								nn, _ := ssax.NilTests(lit, ev)
+								if len(nn) == 0 {
+									missed = w.At(lc)
+									continue
+								}
+								nLit++
+								for _, e := range nn {
+									seenB := map[*ssa.BasicBlock]bool{}
+									stack := []*ssa.BasicBlock{e.From.Succs[e.Succ]}
+									for len(stack) > 0 {
+										x := stack[len(stack)-1]
+										stack = stack[:len(stack)-1]
+										if seenB[x] || incs[x] {
+											continue
+										}
+										seenB[x] = true
+										if len(x.Succs) == 0 {
+											missed = w.At(x.Instrs[len(x.Instrs)-1])
+										}
+										stack = append(stack, x.Succs...)
+									}
+								}
+							}
+						}
+					}
+					if nLit > 0 {
+						okFlag = true
+						if missed != "" {
+							countBad = missed + " (a failed call can leave the goroutine without the count of unanswered shards having been raised)"
+						}
+					}
+				}
+			}
+		}
 		if okFlag && countBad != "" {
 			c.Add("FANOUT", "complete-flag:"+name, core.Violation, countBad, `the count of shards that answered is raised for a shard whose call failed: "not found" is reported although not every shard answered`, props...)
 		} else if okFlag {
